@@ -17,26 +17,50 @@ type ModbusTCPAssembler struct {
 func (m *ModbusTCPAssembler) ReceiveRead(ctx context.Context, received []byte, bytesRead int) (response []byte, closeConnection bool) {
 	m.received.Write(received)
 
+	// single read can contain multiple packets or end of one packet and start of the next one. Handle all complete
+	// packets that have been received so far.
+	for {
+		resp, handled := m.handleNextPacket(ctx)
+		if !handled {
+			break
+		}
+		response = append(response, resp...)
+	}
+	return response, false
+}
+
+// handleNextPacket handles first packet in received data if it has been completely received.
+func (m *ModbusTCPAssembler) handleNextPacket(ctx context.Context) (response []byte, handled bool) {
 	n, err := packet.LooksLikeModbusTCP(m.received.Bytes(), false)
 	if err == packet.ErrTCPDataTooShort {
 		return nil, false // wait for more data to arrive
-	} else if err != nil {
-		return err.(*packet.ErrorParseTCP).Bytes(), false
+	}
+	if n == 0 {
+		// received data can not be Modbus TCP packet. As it is unknown where the next packet would start we discard everything.
+		m.received.Reset()
+		return err.(*packet.ErrorParseTCP).Bytes(), true
+	}
+	if m.received.Len() < n {
+		return nil, false // wait for rest of the packet to arrive
+	}
+	raw := m.received.Next(n)
+	if err != nil { // packet with unsupported function code
+		return err.(*packet.ErrorParseTCP).Bytes(), true
 	}
 
-	p, err := packet.ParseTCPRequest(m.received.Next(n))
+	p, err := packet.ParseTCPRequest(raw)
 	if err != nil {
-		return err.(*packet.ErrorParseTCP).Bytes(), false
+		return err.(*packet.ErrorParseTCP).Bytes(), true
 	}
 
 	resp, err := m.Handler.Handle(ctx, p)
 	if err != nil {
 		var target *packet.ErrorParseTCP
 		if errors.As(err, &target) {
-			return target.Bytes(), false
+			return target.Bytes(), true
 		}
-		return packet.NewErrorParseTCP(packet.ErrUnknown, err.Error()).Bytes(), false
+		return packet.NewErrorParseTCP(packet.ErrUnknown, err.Error()).Bytes(), true
 	}
 
-	return resp.Bytes(), false
+	return resp.Bytes(), true
 }
